@@ -8,7 +8,7 @@ C28  UnsubAll.tla is the documented semantics of Node.Unsubscribe (doc comment: 
      property EmptyChannelUnsubscribesAll as an action property stated from the docs (Addressed) independently of the
      transcription (Selected/TornDown/Pushed); EmptyMeans="literal" (unsub_pinned.cfg, not run) transcribes the pinned
      code and TLC reports the property violated.  TLC exhaustive (quick 243 states / 24k transitions, thorough 729 /
-     711k and 3 channels 2187 / ~840k) + UnsubAllSim -simulate behaviours (250 / 3000, depth 13: subscribes client- and
+     711k and 3 channels 2187 / 430k) + UnsubAllSim -simulate behaviours (250 / 3000, depth 13: subscribes client- and
      server-side, Node.Unsubscribe with user / client / session / label filter / all-users / custom code, half of them
      with channel "", called on node A or B with the four connections spread over both nodes) replayed on two real
      nodes; compared after a barrier: Client.Channels, presence, hub subscriber counts, OnUnsubscribe callbacks (code,
@@ -17,7 +17,7 @@ C28  UnsubAll.tla is the documented semantics of Node.Unsubscribe (doc comment: 
      FINDING (unchanged tree, all seeds): Node.Unsubscribe(user, "") leaves Channels() unchanged, runs no callback,
      publishes no leave, keeps presence and writes ONE unsubscribe push with channel "" -- locally and across nodes.
      Fix: spec/Cluster/c28.fix.diff (Client.Unsubscribe iterates the connection's channels when the name is empty);
-     with it the check is green (250/250 behaviours, 601 empty-channel calls, 162 distinct non-trivial) and
+     with it the check is green for seeds 1..5 (250/250 behaviours, ~170 distinct non-trivial; thorough 3000/3000, 1486) and
      `go test -run 'Unsubscribe|Hub|Survey' .` passes.
      Mutations (on top of the fix, scratch worktrees /tmp/cluster-m*), all caught (exit 1):
        m1 empty channel also reaches other users' connections (hub shard)      -> other-connection:channels
@@ -34,7 +34,7 @@ C27  Control.tla transcribes control.proto (Proto), pubSubscribe/pubUnsubscribe/
      Unsubscribe, Disconnect, Refresh); it STATES Lost(subscribe) = {RecoveryMode, AutoCacheRecover, HistoryMetaTTL,
      ServerTagsFilter}, Lost(other) = {} (ASSUME checked against the maps) and TLC checks RemoteIsLocalMinusLost,
      AgreeUnlessLost, CulpritsAreLost on every enumerated row (quick 872 rows: pairwise-complete + all subsets of the
-     recovery options for subscribe, full 2^6 / 2^7 / 2^8 for unsubscribe / disconnect / refresh; thorough ~4.9k).
+     recovery options for subscribe, full 2^6 / 2^7 / 2^8 for unsubscribe / disconnect / refresh; thorough 5127 rows).
      Every row is executed on two real nodes with the connections on A: call on A vs call on B; the verdict is the
      difference of the REAL effects (subscribe push, ChannelContext, presence + info, join at the Broker, join and
      publication probes, Broker.History call shape and MetaTTL, Source; unsubscribe push + event; transport close +
@@ -50,7 +50,7 @@ C41  Survey.tla: registry, response channel of capacity numNodes, eager collecto
      collector's end and the registry delete, sync / async / absent local answer, responses in any order with
      duplicates, late, foreign ids, unknown nodes, two overlapping surveys.  LocalSend="nonblocking" is the reference;
      "blocking" (survey_pinned.cfg, not run) transcribes the pinned code: TLC reports NoBlockedCallback violated.
-     TLC exhaustive (quick 39k states, 2 nodes; thorough 3 nodes + unknown responder) + simulated behaviours + two
+     TLC exhaustive (quick 39k states, 2 nodes; thorough 15.8M states, 3 nodes + unknown responder, ~9 min) + simulated behaviours + two
      witness schedules (late local answer / late remote answer dropped) gate-replayed on a real node: OnSurvey handler
      parks the surveying goroutine, Controller sees the request, responses injected through Node.HandleControl under
      a watchdog, deadline = Done() of a harness context, ctx.Err() parks Survey between collector end and registry
@@ -199,7 +199,7 @@ META = {
     'C27': dict(
         level='model_checking',
         text='Control.tla transcribes control.proto, the four pub* encoders and handleControl as option->field->option maps and an abstract effect of every option; TLC checks for every enumerated option set that the remote effect equals the local effect of the option set minus the options the spec states as lost. Every row is then executed on two real nodes joined by a harness Controller, once with the call on the node holding the connections and once on the other node, and the real effects are compared component by component (pushes, callbacks, presence, join, history-call shape, probes, ChannelContext); a difference is attributed to options by re-running locally without one option.',
-        note='Bounds: every option absent or one distinguished value; subscribe: pairwise-complete option sets + all subsets of the six recovery-related options (quick 446 sets, thorough ~4.5k), unsubscribe/disconnect/refresh: all option sets (64/128/256); four connections (target, same-user decoy, other user, anonymous).' + _trusted,
+        note='Bounds: every option absent or one distinguished value; subscribe: pairwise-complete option sets + all subsets of the six recovery-related options (quick 446 sets, thorough 4701), unsubscribe/disconnect/refresh: all option sets (64/128/256); four connections (target, same-user decoy, other user, anonymous).' + _trusted,
         technique='TLA+ transcription of the wire projection + TLC enumeration (function table via -dump); table replay on two real nodes, local vs remote',
         design_ref='DESIGN.md 4.3/4.4, 8 (C27), 10 item 7'),
     'C28': dict(
